@@ -59,7 +59,7 @@ BOTH = ('unknown-fn', 'xlfn', 'xlfn-like-known', 'undefined-name', 'ref-literal'
 ANY_ERROR = {'#REF!', '#VALUE!', '#NULL!', '#NAME?'}
 FILES = ('missing-sheet', 'missing-sheet-range', 'missing-book', 'empty-file',
          'truncated-file', 'directory', 'garbage-file', 'name-missing-sheet',
-         'link-index')
+         'link-index', 'name-formula-missing-sheet')
 NAME_ONLY = {'#NAME?'}
 REF_OR_NAME = {'#REF!', '#NAME?'}
 
@@ -86,6 +86,12 @@ def fault_tree(kind, rng, desc, b):
         if rng.random() < 0.5:
             return ['raw', nm, "'[%s]'!%s" % (bk, nm)], REF_OR_NAME
         return ['bin', '*', ['raw', nm, "'[%s]'!%s" % (bk, nm)], ['lit', 2.0]], REF_OR_NAME
+    if kind == 'name-formula-missing-sheet':
+        # the missing sheet sits inside a formula-valued name
+        nm = 'ADJ_%d' % (len(desc['names']) + 1)
+        desc['names'][nm] = ['val', b, ['bin', '*', [
+            'raw', 'Gone!$A$1', "'[%s]Gone'!$A$1" % bk], ['lit', 2.0]]]
+        return ['bin', '+', ['name', nm], ['lit', 1.0]], REF_OR_NAME
     if kind in ('name-unknown-fn', 'name-missing-sheet'):
         # the unresolvable item sits in the definition of a defined name
         nm = 'BROKEN%d' % (len(desc['names']) + 1)
@@ -213,6 +219,20 @@ def make_case(seed, i, path=None):
         free = [x for x in _free_cells(desc, key[0], key[1]) if x[0] >= 9]
         for p, (c, r) in zip(probes[:rng.randint(5, 7)], rng.sample(free, min(len(free), 7))):
             cells['%s%d' % (gw.col_name(c), r)] = {'f': p}
+    lazy = path == 'xlsx' and i % 6 == 2
+    if lazy and len(desc['books']) > 1:
+        # a fault behind a formula-valued name of a book that is only pulled in:
+        # the first book reads the fault cell, nothing else loads that book
+        bb = len(desc['books']) - 1
+        tree, accepted = fault_tree('name-formula-missing-sheet', rng, desc, bb)
+        desc['books'][bb]['sheets'][0]['cells']['M15'] = {'f': tree}
+        faults.append({'kind': 'name-formula-missing-sheet', 'cell': [bb, 0, 13, 15],
+                       'accepted': sorted(accepted), 'where': 'pulled-in-book'})
+        # (rows 13+ are outside every generated whole-row reference)
+        desc['books'][0]['sheets'][0]['cells']['M13'] = {
+            'f': ['call', 'IFERROR', [['cell', bb, 0, 13, 15], ['lit', 77.0]]]}
+        desc['books'][0]['sheets'][0]['cells']['M14'] = {
+            'f': ['bin', '+', ['cell', bb, 0, 13, 15], ['lit', 0.0]]}
     # two different undefined names in one formula, each intercepted on its own
     bk0 = desc['books'][0]['name']
     na = ['raw', 'No_Such_A', "'[%s]'!No_Such_A" % bk0]
@@ -222,6 +242,7 @@ def make_case(seed, i, path=None):
                        ['call', 'IFERROR', [nb, ['lit', 20.0]]]]}
     c0['L14'] = {'f': ['bin', '+', ['call', 'ISERROR', [nb]], ['call', 'ISERROR', [na]]]}
     return {'kind': 'twin', 'id': i, 'path': path, 'base': base, 'desc': desc,
+            'lazy': lazy,
             'faults': faults, 'expect': [[[0, 0, 12, 13], 30.0], [[0, 0, 12, 14], 2.0]]}
 
 
@@ -237,7 +258,7 @@ class LogTap(logging.Handler):
             self.records.append('unformattable')
 
 
-def _load(desc, path, tag, stage):
+def _load(desc, path, tag, stage, lazy=False):
     import formulas
     if path == 'dict':
         stage[0] = 'from_dict'
@@ -264,7 +285,8 @@ def _load(desc, path, tag, stage):
         lw.create_sheet('Sheet1')['A1'] = 999.0    # what [1] must never reach
         lw.save(os.path.join(d, 'linked.xlsx'))
         stage[0] = 'loads'
-        m = formulas.ExcelModel().loads(*paths)
+        # lazy: only the first book is loaded, the others are pulled in
+        m = formulas.ExcelModel().loads(*(paths[:1] if lazy else paths))
         stage[0] = 'finish (complete)'
         m.finish()
     stage[0] = 'calculate'
@@ -279,7 +301,8 @@ def check_case(case, ctx):
     log = logging.getLogger('formulas')
     stage = ['']
     try:
-        _, sol0 = _load(base, path, 'base', stage)
+        lazy = bool(case.get('lazy'))
+        _, sol0 = _load(base, path, 'base', stage, lazy)
         obs0 = wbrun.solution_cells(base, sol0)
     except Exception as ex:
         ctx.count('twin-raised')        # not this property's business
@@ -288,7 +311,7 @@ def check_case(case, ctx):
     old = log.level
     log.setLevel(logging.DEBUG)
     try:
-        m, sol = _load(desc, path, 'faulty', stage)
+        m, sol = _load(desc, path, 'faulty', stage, lazy)
     except Exception as ex:
         ctx.violation('raised:%s:%s:%s' % (stage[0], type(ex).__name__, kinds), {
             'case': case, 'stage': stage[0], 'faults': case['faults'],
@@ -313,7 +336,13 @@ def check_case(case, ctx):
     for f in case['faults']:
         key = tuple(f['cell'])
         o = observed.get(key, ('missing',))
+        if lazy and o == ('missing',):
+            ctx.count('lazy.fault-not-reached')
+            ov[key] = xl.c_err('#REF!')
+            continue
         ctx.count('fault.%s.%s' % (f['kind'], path))
+        if lazy:
+            ctx.count('lazy.fault-reached')
         if o[0] == 'err':
             ov[key] = o
         if o[0] != 'err' or o[1] not in f['accepted']:
@@ -327,8 +356,10 @@ def check_case(case, ctx):
     for key, v0 in obs0.items():
         if key in tainted:
             continue
-        n += 1
         o = observed.get(key, ('missing',))
+        if lazy and ('missing',) in (o, v0):
+            continue        # not pulled in by one of the twins
+        n += 1
         if not xl.same(o, v0, rel=0):
             cell = gw_cell(base, key) or {}
             ctx.violation('nonlocal:%s:%s->%s:%s' % (
@@ -353,6 +384,18 @@ def check_case(case, ctx):
                 'case': case, 'cell': gw.key_of(desc, *key),
                 'formula': gw.formula_text(desc, gw_cell(desc, key)['f'], (0, 0)),
                 'observed': xl.show(o), 'accepted': [repr(want)]})
+    if lazy and len(desc['books']) > 1:
+        for addr, ok in (('M13', lambda o: o == xl.c_num(77.0)),
+                         ('M14', lambda o: o[0] == 'err')):
+            key = (0, 0) + gw.split_addr(addr)
+            o = observed.get(key, ('missing',))
+            ctx.count('monitor.lazy-name-formula-readers')
+            if not ok(o):
+                ctx.violation('lazy-reader:%s:%s' % (addr, wbrun._cls(o)), {
+                    'case': case, 'cell': gw.key_of(desc, *key),
+                    'formula': gw.formula_text(desc, gw_cell(desc, key)['f'], (0, 0)),
+                    'observed': xl.show(o),
+                    'accepted': ['77.0' if addr == 'M13' else 'an error value']})
     # the healthy bystanders that read through the link table
     for b, links in (desc.get('links') or {}).items():
         for addr, want in (('L11', 43.0), ('L12', 49.0)):
@@ -360,6 +403,8 @@ def check_case(case, ctx):
             if key in tainted:
                 continue
             o = observed.get(key, ('missing',))
+            if lazy and o == ('missing',):
+                continue
             ctx.count('monitor.link-bystanders')
             if o != xl.c_num(want):
                 ctx.violation('link-bystander:%s->num' % wbrun._cls(o), {
@@ -368,7 +413,7 @@ def check_case(case, ctx):
                     'link_table': links, 'observed': xl.show(o),
                     'accepted': [repr(want)]})
     # 4. dependents see ordinary error values
-    if len(ov) == len(fault_keys):
+    if len(ov) == len(fault_keys) and not lazy:
         k = wbrun.compare_with_reference(
             desc, observed, ctx, 'dependent', case, overrides=ov,
             annotate=lambda key: {'_tag': 'probe:' if _is_probe(desc, key) else ''})
@@ -407,7 +452,9 @@ def finalize(agg, tier):
     for k, floor in (('monitor.twins', 150), ('monitor.local-cells', 3000),
                      ('monitor.dependent-cells', 1000),
                      ('monitor.reference-cells', 3000),
-                     ('evidence.library-log-records', 20)):
+                     ('evidence.library-log-records', 20),
+                     ('monitor.lazy-name-formula-readers', 10),
+                     ('lazy.fault-reached', 20)):
         if c.get(k, 0) < floor:
             inc.append('monitor %s saw %d events (< %d)' % (k, c.get(k, 0), floor))
     for kind in BOTH:
